@@ -14,7 +14,7 @@ partial def hashEpisode (h : IO.FS.Stream) (I : Inst) (s : HSt I) : IO (Option S
   if line.isEmpty then return none
   let toks := splitLine line
   match toks with
-  | "S" :: _ | ["F"] | "SB" :: _ =>
+  | "S" :: _ | ["F"] | "SB" :: _ | "T" :: _ =>
     let (s', out) := hashStep I s toks
     IO.println out
     hashEpisode h I s'
